@@ -1,18 +1,33 @@
 """C18 - boolean-epoch utilities.  Model: coq/Runs/Model.v; theorems: coq/Props/C18.v."""
 import itertools
 import numpy as np
-from vlib import blist, pairlist, optlit, zlit
+from vlib import blist, pairlist, optlit, zlit, zlist
 
 PROP = 'C18'
 REQUIRES = ['Runs.Model']
 RULE = ('epochs: every boolean array up to length L (quick 11, thorough 15) plus seeded random arrays up to '
-        'length 400; smooth_epochs: every set of <=3 (quick) / <=4 (thorough) non-empty intervals over [0,6] in every order '
-        'plus random sets; debounce_epochs: the runs of every boolean array up to length 9 (11) x every limit 0..5 plus random. '
-        'A case is non-trivial when the implementation returned at least one interval; distinct = distinct inputs.')
+        'length 400, as bool arrays through the default call; every array up to length 7 (9) again as int8/uint8/int32/int64/float 0-1 arrays, '
+        'as strided / reversed views, as read-only arrays, and with pad 0..3 given positionally or by keyword (the caller\'s array after the call '
+        'is compared too); edge_rising / edge_falling called directly on every array up to length 8 (10) in bool and integer dtypes; '
+        'smooth_epochs: every set of <=3 (quick) / <=4 (thorough) non-empty intervals over [0,6] in every order '
+        'plus random sets, as int64 ndarrays; every set of <=2 intervals plus random sets again as list of tuples / list of lists / tuple of '
+        'tuples / float / int32 / Fortran-ordered / strided-view / read-only arrays, empty list and empty (0,2) array, each called twice on the '
+        'same object; debounce_epochs: the runs of every boolean array up to length 9 (11) x every limit 0..5 plus random, as int64 arrays with '
+        'a Python int limit; again (arrays up to length 7, random) as float / int32 arrays, NumPy-integer and float limits, limits beyond the '
+        'whole span, the empty (0,2) array, the caller scribbling on the result and calling again with the same array; '
+        'debounce_epochs(epochs(x), d) composed on raw boolean arrays (incl. all-False: the float (0,2) array). '
+        'A case is non-trivial when the implementation returned at least one interval or edge; distinct = distinct inputs.')
 TRUSTED = ['harness/C18.py (generators, canonicalisation of ndarray results to integer pairs)',
-           'numpy sort/diff/flatnonzero/r_/c_ as modelled in coq/Runs/Model.v (exercised by the correspondence, not proved)']
-ASSUMPTIONS = ['epochs is modelled for pad=0 (the only form the package uses)',
-               'smooth/debounce theorems assume non-empty intervals (s < e), as produced by epochs']
+           'numpy sort/diff/flatnonzero/r_/c_ and basic slice assignment as modelled in coq/Runs/Model.v and coq/Common/PySlice.v '
+           '(exercised by the correspondence, not proved)']
+ASSUMPTIONS = ['the theorems are about pad=0 (the only form the package uses); pad>0 is covered by the correspondence '
+               '(epochs_pad_model) and by the oracle, not by a theorem',
+               'smooth/debounce theorems assume non-empty intervals (s < e), as produced by epochs',
+               'integer / float input arrays hold only the values 0 and 1 (a boolean signal)',
+               'interval arrays passed to debounce_epochs are ndarrays (the function indexes columns); read-only input arrays '
+               'are legal for debounce_epochs (it copies) but make epochs / smooth_epochs raise (see known_findings / report)']
+
+DTYPES = {'bool': bool, 'int8': np.int8, 'uint8': np.uint8, 'int32': np.int32, 'int64': np.int64, 'float64': np.float64}
 
 
 def _util():
@@ -20,44 +35,110 @@ def _util():
     return util
 
 
+def _all_bits(n):
+    return itertools.product([0, 1], repeat=n)
+
+
 def cases(tier, rng):
-    L = 11 if tier == 'quick' else 15
+    quick = tier == 'quick'
+    L = 11 if quick else 15
+    # ---- epochs: the default call on a bool array (the form the theorems are about) ----
     for n in range(0, L + 1):
-        for bits in itertools.product([0, 1], repeat=n):
+        for bits in _all_bits(n):
             yield {'k': 'epochs', 'x': list(bits)}
-    for _ in range(200 if tier == 'quick' else 3000):
+    for _ in range(200 if quick else 3000):
         n = rng.randint(L + 1, 400)
         p = rng.choice([0.05, 0.3, 0.5, 0.8, 0.97])
         yield {'k': 'epochs', 'x': [int(rng.random() < p) for _ in range(n)]}
+    # ---- epochs: other legal argument kinds, pad given explicitly ----
+    LE = 7 if quick else 9
+    kinds = [{'dt': 'int64'}, {'dt': 'uint8'}, {'dt': 'float64'}, {'dt': 'bool', 'view': 'stride'},
+             {'dt': 'int8', 'view': 'rev'}, {'dt': 'bool', 'ro': True}, {'dt': 'int32', 'ro': True},
+             {'dt': 'bool', 'pad': 0, 'kw': True}, {'dt': 'bool', 'pad': 1}, {'dt': 'bool', 'pad': 2, 'kw': True},
+             {'dt': 'int64', 'pad': 3}, {'dt': 'uint8', 'pad': 2, 'view': 'stride'}, {'dt': 'bool', 'pad': 1, 'np': True}]
+    for n in range(0, LE + 1):
+        for bits in _all_bits(n):
+            for kd in kinds:
+                yield dict({'k': 'epochs', 'x': list(bits)}, **kd)
+    for _ in range(300 if quick else 4000):
+        n = rng.randint(LE + 1, 120)
+        p = rng.choice([0.05, 0.3, 0.5, 0.8, 0.97])
+        kd = dict(rng.choice(kinds))
+        if 'pad' in kd:
+            kd['pad'] = rng.choice([0, 1, 2, 3, 5, 8, n, n + 3])
+        yield dict({'k': 'epochs', 'x': [int(rng.random() < p) for _ in range(n)]}, **kd)
+    # ---- edge_rising / edge_falling called directly ----
+    LG = 8 if quick else 10
+    for n in range(0, LG + 1):
+        for bits in _all_bits(n):
+            yield {'k': 'edges', 'x': list(bits), 'dt': ('bool', 'int64', 'uint8', 'int8')[(n + sum(bits)) % 4]}
+    for _ in range(100 if quick else 1000):
+        n = rng.randint(LG + 1, 200)
+        yield {'k': 'edges', 'x': [int(rng.random() < 0.5) for _ in range(n)], 'dt': rng.choice(['bool', 'int64', 'uint8', 'float64'])}
+    # ---- smooth_epochs ----
     ivs = [(s, e) for s in range(0, 6) for e in range(s + 1, 7)]
-    K = 3 if tier == 'quick' else 4
+    K = 3 if quick else 4
     for k in range(0, K + 1):
-        if k <= 2 or tier != 'quick':
+        if k <= 2 or not quick:
             it = itertools.product(ivs, repeat=k)
         else:
             it = (tuple(rng.choice(ivs) for _ in range(k)) for _ in range(1500))
         for c in it:
             yield {'k': 'smooth', 'l': [list(p) for p in c]}
-    for _ in range(300 if tier == 'quick' else 5000):
-        k = rng.randint(1, 12)
-        l = []
-        for _ in range(k):
-            s = rng.randint(-20, 60)
-            l.append([s, s + rng.randint(1, 15)])
-        yield {'k': 'smooth', 'l': l}
-    LD = 9 if tier == 'quick' else 11
+    for _ in range(300 if quick else 5000):
+        yield {'k': 'smooth', 'l': _random_ivs(rng)}
+    skinds = ['list_tuples', 'list_lists', 'tuple_tuples', 'float64', 'int32', 'fortran', 'view', 'ro', 'ro_list']
+    for k in range(0, 3):
+        for c in itertools.product(ivs, repeat=k):
+            sk = skinds[(sum(a + b for a, b in c) + k) % len(skinds)]
+            yield {'k': 'smooth', 'l': [list(p) for p in c], 'kind': sk, 'twice': True}
+    for sk in skinds + ['int64']:
+        yield {'k': 'smooth', 'l': [], 'kind': sk, 'twice': True}
+        for _ in range(40 if quick else 400):
+            yield {'k': 'smooth', 'l': _random_ivs(rng), 'kind': sk, 'twice': True}
+    # ---- debounce_epochs ----
+    LD = 9 if quick else 11
     for n in range(1, LD + 1):
-        for bits in itertools.product([0, 1], repeat=n):
+        for bits in _all_bits(n):
             r = _runs(bits)
             if r:
                 for d in range(0, 6):
                     yield {'k': 'debounce', 'd': d, 'l': r}
-    for _ in range(300 if tier == 'quick' else 5000):
+    for _ in range(300 if quick else 5000):
         n = rng.randint(10, 200)
         p = rng.choice([0.3, 0.5, 0.8])
         r = _runs([int(rng.random() < p) for _ in range(n)])
         if r:
             yield {'k': 'debounce', 'd': rng.randint(0, 8), 'l': r}
+    dkinds = [{'dt': 'float64', 'dk': 'float'}, {'dt': 'float64', 'dk': 'int'}, {'dt': 'int32', 'dk': 'int'},
+              {'dt': 'int64', 'dk': 'np64'}, {'dt': 'int64', 'dk': 'np32'}, {'dt': 'int64', 'dk': 'int', 'view': True},
+              {'dt': 'int64', 'dk': 'int', 'ro': True}]
+    LD2 = 7 if quick else 9
+    for n in range(0, LD2 + 1):
+        for bits in _all_bits(n):
+            r = _runs(bits)
+            for d in (0, 1, 2, 3, n, n + 1):
+                yield dict({'k': 'debounce', 'd': d, 'l': r, 'twice': True}, **dkinds[(d + len(r) + n) % len(dkinds)])
+    for _ in range(300 if quick else 4000):
+        n = rng.randint(8, 150)
+        r = _runs([int(rng.random() < rng.choice([0.3, 0.5, 0.8])) for _ in range(n)])
+        yield dict({'k': 'debounce', 'd': rng.choice([0, 1, 2, 3, 5, 8, n, 2 * n]), 'l': r, 'twice': True}, **rng.choice(dkinds))
+    # ---- the composition the package uses: debounce_epochs(epochs(x), d) ----
+    LP = 8 if quick else 10
+    for n in range(0, LP + 1):
+        for bits in _all_bits(n):
+            yield {'k': 'pipe', 'x': list(bits), 'd': (n + sum(bits)) % 4}
+    for _ in range(150 if quick else 2000):
+        n = rng.randint(LP + 1, 200)
+        yield {'k': 'pipe', 'x': [int(rng.random() < rng.choice([0.3, 0.5, 0.8])) for _ in range(n)], 'd': rng.randint(0, 6)}
+
+
+def _random_ivs(rng):
+    l = []
+    for _ in range(rng.randint(1, 12)):
+        s = rng.randint(-20, 60)
+        l.append([s, s + rng.randint(1, 15)])
+    return l
 
 
 def _runs(bits):
@@ -78,66 +159,256 @@ def _pairs(a):
     if a.size == 0:
         return []
     assert a.ndim == 2 and a.shape[1] == 2, a.shape
+    for s, e in a:
+        assert float(s) == int(s) and float(e) == int(e), a
     return [[int(s), int(e)] for s, e in a]
+
+
+def _bool_array(case):
+    """the array handed to epochs / edge_*: dtype, memory layout and write flag as the case says"""
+    x = np.array(case['x'], dtype=DTYPES[case.get('dt', 'bool')])
+    view = case.get('view')
+    if view == 'stride':
+        base = np.zeros(2 * len(x) + 1, dtype=x.dtype)
+        base[1::2] = x
+        x = base[1::2]
+    elif view == 'rev':
+        base = x[::-1].copy()
+        x = base[::-1]
+    if case.get('ro'):
+        x.setflags(write=False)
+    return x
+
+
+def _interval_arg(l, kind):
+    if kind in (None, 'int64'):
+        return np.array(l, dtype=np.int64).reshape((-1, 2))
+    if kind == 'list_tuples':
+        return [tuple(p) for p in l]
+    if kind == 'list_lists':
+        return [list(p) for p in l]
+    if kind == 'tuple_tuples':
+        return tuple(tuple(p) for p in l)
+    if kind == 'ro_list':
+        return [np.array(p) for p in l]
+    if kind in ('float64', 'int32'):
+        return np.array(l, dtype=DTYPES[kind]).reshape((-1, 2))
+    if kind == 'fortran':
+        return np.asfortranarray(np.array(l, dtype=np.int64).reshape((-1, 2)))
+    if kind == 'view':
+        base = np.full((len(l), 5), -77, dtype=np.int64)
+        base[:, 1::2] = np.array(l, dtype=np.int64).reshape((-1, 2))
+        return base[:, 1::2]
+    if kind == 'ro':
+        a = np.array(l, dtype=np.int64).reshape((-1, 2))
+        a.setflags(write=False)
+        return a
+    raise KeyError(kind)
 
 
 def impl(case):
     util = _util()
-    if case['k'] == 'epochs':
+    k = case['k']
+    if k == 'epochs':
+        plain = set(case) <= {'k', 'x'}
+        x = _bool_array(case)
         try:
-            return _pairs(util.epochs(np.array(case['x'], dtype=bool)))
-        except (IndexError, ValueError) as e:
-            return None
-    if case['k'] == 'smooth':
-        return _pairs(util.smooth_epochs(np.array(case['l'], dtype=int).reshape((-1, 2))))
-    if case['k'] == 'debounce':
-        return _pairs(util.debounce_epochs(np.array(case['l'], dtype=int).reshape((-1, 2)), case['d']))
-    raise KeyError(case['k'])
+            if 'pad' not in case:
+                r = util.epochs(x)
+            else:
+                pad = np.int64(case['pad']) if case.get('np') else case['pad']
+                r = util.epochs(x, pad=pad) if case.get('kw') else util.epochs(x, pad)
+            r = _pairs(r)
+        except (IndexError, ValueError):
+            r = None
+        if plain:
+            return r if [int(v) for v in x] == case['x'] else {'r': r, 'xa': [int(v) for v in x]}
+        return {'r': r, 'xa': [int(v) for v in x]}
+    if k == 'edges':
+        x = _bool_array(case)
+        r, f = util.edge_rising(x), util.edge_falling(x)
+        assert r.dtype == bool and f.dtype == bool and r.shape == x.shape == f.shape
+        return {'r': [int(i) for i in np.flatnonzero(r)], 'f': [int(i) for i in np.flatnonzero(f)],
+                'xa': [int(v) for v in x]}
+    if k == 'smooth':
+        kind = case.get('kind')
+        arg = _interval_arg(case['l'], kind)
+        if kind is None:
+            return _pairs(util.smooth_epochs(arg))
+        try:
+            r = _pairs(util.smooth_epochs(arg))
+        except ValueError:
+            return {'r': None}
+        # the very same object again: whatever the first call did to it, it still denotes the caller's intervals
+        return {'r': r, 'r2': _pairs(util.smooth_epochs(arg))}
+    if k == 'debounce':
+        dt = case.get('dt')
+        if dt is None:
+            return _pairs(util.debounce_epochs(np.array(case['l'], dtype=int).reshape((-1, 2)), case['d']))
+        a = np.array(case['l'], dtype=DTYPES[dt]).reshape((-1, 2))
+        if case.get('view'):
+            base = np.full((len(case['l']), 4), -77, dtype=a.dtype)
+            base[:, ::3] = a
+            a = base[:, ::3]
+        if case.get('ro'):
+            a.setflags(write=False)
+        d = {'int': int, 'float': float, 'np64': np.int64, 'np32': np.int32}[case['dk']](case['d'])
+        out = util.debounce_epochs(a, d)
+        r = _pairs(out)
+        same = [[int(s), int(e)] for s, e in a] == [list(p) for p in case['l']]
+        if out.size and out.flags.writeable:
+            out[...] = -5                          # the caller owns the result
+        r2 = _pairs(util.debounce_epochs(a, d))    # and asks again about the same array
+        return {'r': r, 'r2': r2, 'input_unchanged': same}
+    if k == 'pipe':
+        x = np.array(case['x'], dtype=bool)
+        return _pairs(util.debounce_epochs(util.epochs(x), case['d']))
+    raise KeyError(k)
+
+
+def _plain(case, res):
+    """(result, array after the call) of an epochs case"""
+    if isinstance(res, dict):
+        return res['r'], res['xa']
+    return res, case['x']
 
 
 def term(case, res):
-    if case['k'] == 'epochs':
-        return f"check_epochs {blist(case['x'])} {optlit(res, pairlist)}"
-    if case['k'] == 'smooth':
-        return f"check_smooth {pairlist(case['l'])} {pairlist(res)}"
-    return f"check_debounce {zlit(case['d'])} {pairlist(case['l'])} {pairlist(res)}"
+    k = case['k']
+    if k == 'epochs':
+        r, xa = _plain(case, res)
+        if case.get('ro'):
+            return f"check_epochs_ro {blist(case['x'])} {optlit(r, pairlist)} && {'true' if xa == case['x'] else 'false'}"
+        t = f"check_epochs_pad {zlit(case.get('pad', 0))} {blist(case['x'])} {blist(xa)} {optlit(r, pairlist)}"
+        if 'pad' not in case:
+            t = f"check_epochs {blist(case['x'])} {optlit(r, pairlist)} && {t}"
+        return t
+    if k == 'edges':
+        return f"check_edges {blist(case['x'])} {zlist(res['r'])} {zlist(res['f'])} && {'true' if res['xa'] == case['x'] else 'false'}"
+    if k == 'smooth':
+        if not isinstance(res, dict):
+            return f"check_smooth {pairlist(case['l'])} {pairlist(res)}"
+        if res['r'] is None:
+            # the in-place sort refuses a read-only array (model: the code raises iff it reaches the sort)
+            return 'true' if (case['kind'] == 'ro' and case['l']) else 'false'
+        return (f"check_smooth {pairlist(case['l'])} {pairlist(res['r'])} && "
+                f"check_smooth {pairlist(case['l'])} {pairlist(res['r2'])}")
+    if k == 'debounce':
+        if not isinstance(res, dict):
+            return f"check_debounce {zlit(case['d'])} {pairlist(case['l'])} {pairlist(res)}"
+        return (f"check_debounce {zlit(case['d'])} {pairlist(case['l'])} {pairlist(res['r'])} && "
+                f"check_debounce {zlit(case['d'])} {pairlist(case['l'])} {pairlist(res['r2'])} && "
+                f"{'true' if res['input_unchanged'] else 'false'}")
+    if k == 'pipe':
+        return f"check_debounce {zlit(case['d'])} {pairlist(_runs(case['x']))} {pairlist(res)}"
+    raise KeyError(k)
 
 
 def nontrivial(case, res):
+    if isinstance(res, dict):
+        return bool(res.get('r') or res.get('f'))
     return bool(res)
+
+
+def _dilated(x, pad):
+    """runs of x grown by pad at every edge inside the array (a run touching an array end has no edge there), clipped, merged"""
+    n = len(x)
+    y = list(x)
+    for s, e in _runs(x):
+        if s > 0:
+            for i in range(max(0, s - pad), s):
+                y[i] = 1
+        if e < n:
+            for i in range(e, min(n, e + pad)):
+                y[i] = 1
+    return y
+
+
+def _wraps(case):
+    pad = case.get('pad', 0)
+    return any(0 < s < pad for s, _ in _runs(case['x']))
+
+
+def _debounce_want(l, d):
+    kept = [p for p in l if p[1] - p[0] >= d]
+    want = []
+    for s, e in kept:
+        if want and s - want[-1][1] <= d:
+            want[-1][1] = e
+        else:
+            want.append([s, e])
+    return want
+
+
+def _smooth_msg(l, res, what='smooth_epochs'):
+    pts = set()
+    for s, e in l:
+        pts.update(range(s, e))
+    got = set()
+    for s, e in res:
+        if not s < e:
+            return f'{what} returned an empty interval {[s, e]}'
+        got.update(range(s, e))
+    if got != pts:
+        return f'{what} cover differs: {res}'
+    for (s1, e1), (s2, e2) in zip(res, res[1:]):
+        if not e1 < s2:
+            return f'{what} output not sorted/disjoint/non-touching: {res}'
+    return None
 
 
 def oracle(case, res):
     """The property, stated on the implementation's answer only."""
-    if case['k'] == 'epochs':
-        want = _runs(case['x'])
-        if res != want:
-            return f'epochs returned {res}, maximal runs are {want}'
-    elif case['k'] == 'smooth':
-        pts = set()
-        for s, e in case['l']:
-            pts.update(range(s, e))
-        got = set()
-        for s, e in res:
-            if not s < e:
-                return f'smooth_epochs returned an empty interval {[s, e]}'
-            got.update(range(s, e))
-        if got != pts:
-            return f'smooth_epochs cover differs: {res}'
-        for (s1, e1), (s2, e2) in zip(res, res[1:]):
-            if not e1 < s2:
-                return f'smooth_epochs output not sorted/disjoint/non-touching: {res}'
-    else:
-        d = case['d']
-        kept = [p for p in case['l'] if p[1] - p[0] >= d]
-        want = []
-        for s, e in kept:
-            if want and s - want[-1][1] <= d:
-                want[-1][1] = e
-            else:
-                want.append([s, e])
-        if res != want:
-            return f'debounce_epochs returned {res}, expected {want}'
+    k = case['k']
+    if k == 'epochs':
+        r, xa = _plain(case, res)
+        if case.get('ro'):
+            # documented limitation found by the audit: the slice assignment of the pad loop refuses a read-only
+            # array even for pad = 0; judged only when the call returned
+            if r is not None and r != _runs(case['x']):
+                return f'epochs returned {r}, maximal runs are {_runs(case["x"])}'
+            return None
+        pad = case.get('pad', 0)
+        if pad == 0:
+            want = _runs(case['x'])
+            if r != want:
+                return f'epochs returned {r}, maximal runs are {want}'
+            if xa != case['x']:
+                return f'epochs(pad=0) changed the caller\'s array to {xa}'
+            return None
+        # pad > 0: the answer is exactly the run structure of the array the call leaves behind ...
+        if r != _runs(xa):
+            return f'epochs(pad={pad}) returned {r}, but the runs of the array it left in x are {_runs(xa)}'
+        # ... and that array is x with every run grown by pad (where the leading slice x[s-pad:s] does not wrap)
+        if not _wraps(case) and xa != _dilated(case['x'], pad):
+            return f'epochs(pad={pad}) left {xa}; every run grown by {pad} gives {_dilated(case["x"], pad)}'
+        return None
+    if k == 'edges':
+        n = len(case['x'])
+        runs = _runs(case['x'])
+        wr = [s for s, _ in runs if s > 0]
+        wf = [e for _, e in runs if e < n]
+        if res['r'] != wr or res['f'] != wf:
+            return f'edge_rising/edge_falling gave {res["r"]}/{res["f"]}, the run boundaries inside the array are {wr}/{wf}'
+        if res['xa'] != case['x']:
+            return 'edge detection changed its argument'
+        return None
+    if k == 'smooth':
+        if not isinstance(res, dict):
+            return _smooth_msg(case['l'], res)
+        if res['r'] is None:
+            return None if (case['kind'] == 'ro' and case['l']) else 'smooth_epochs raised ValueError on a legal interval set'
+        return _smooth_msg(case['l'], res['r']) or _smooth_msg(case['l'], res['r2'], 'smooth_epochs (second call on the same object)')
+    if k in ('debounce', 'pipe'):
+        l = case['l'] if k == 'debounce' else _runs(case['x'])
+        want = _debounce_want(l, case['d'])
+        if not isinstance(res, dict):
+            return None if res == want else f'debounce_epochs returned {res}, expected {want}'
+        if res['r'] != want:
+            return f'debounce_epochs returned {res["r"]}, expected {want}'
+        if res['r2'] != want:
+            return (f'debounce_epochs asked again about the same array returned {res["r2"]}, expected {want} '
+                    f'(input array unchanged: {res["input_unchanged"]})')
     return None
 
 
@@ -145,8 +416,11 @@ def distribution(cases, results):
     d = {}
     for c, r in zip(cases, results):
         k = c['k']
+        if any(x in c for x in ('dt', 'kind', 'pad', 'view', 'ro')):
+            k += '/' + '/'.join(str(c[x]) if x in ('dt', 'kind') else x + ('=' + str(c[x]) if x == 'pad' else '')
+                                for x in ('dt', 'kind', 'pad', 'view', 'ro') if x in c)
         d.setdefault(k, {'n': 0, 'empty_result': 0, 'max_len': 0})
         d[k]['n'] += 1
-        d[k]['empty_result'] += (not r)
+        d[k]['empty_result'] += (not nontrivial(c, r))
         d[k]['max_len'] = max(d[k]['max_len'], len(c.get('x', c.get('l'))))
     return d
